@@ -230,6 +230,19 @@ def base_channel_parts():
         TypeItem(SRC, 'struct', 'BaseChannel', drop_fields=['ghost']),
         TRAIT,
         Impl('impl<Req, Resp> BaseChannel<Req, Resp>', fx_type='SFx', qual='BaseChannel', parts=[
+            Fn(SRC, BC_IMPL, 'new', tags='C11',
+               rules=[
+                   Rule('R5:new-transport-param', r'transport: T\)', 'transport: Transport<Response<Resp>, ClientMessage<Req>>)', 1, where='sig', why='transport type parameter erased (prelude model)'),
+                   Rule('R5:new-cancellations', r'= cancellations\(\);', '= cancellations_model();', 1, where='body', why='prelude model of crate::cancellations::cancellations()'),
+                   Rule('R5:new-fuse', r'transport\.fuse\(\)', 'fuse_model(transport)', 1, where='body', why='A-sink: the transport model is the fused view'),
+                   Rule('R5:new-ghost', r'^[ \t]*ghost: PhantomData,\n', '', 1, where='body', flags=re.M, why='PhantomData marker field (dropped from the struct: drop_fields)'),
+               ],
+               ensures='''
+                 // the induction base: a new channel satisfies the channel invariant, tracks nothing and has not touched its transport
+                 r.in_flight_requests.wf() && r.in_flight_requests@ =~= Map::<u64, SEntry>::empty(), // @C11,C08
+                 r.transport@ == transport@ && r.config == config, // @C14
+               ''',
+               pre='broadcast use vstd::std_specs::hash::group_hash_axioms;'),
             Fn(SRC, BC_IMPL, 'start_request', tags='C08,C18',
                requires='old(self).in_flight_requests.wf(), // @core',
                ensures='''
@@ -323,6 +336,14 @@ def throttle_parts():
     return [
         TypeItem(THR, 'struct', 'MaxRequests'),
         THROTTLE_VOCAB,
+        Impl('impl<C: Channel> MaxRequests<C>', fx_type='SFx', qual='MaxRequests', parts=[
+            Fn(THR, r'impl<C> MaxRequests<C> where C: Channel,', 'new', tags='C12',
+               ensures='''
+                 // the limiter starts out over exactly the channel and the limit it was given (its invariant is the inner channel's)
+                 r.inner == inner && r.max_in_flight_requests == max_in_flight_requests, // @C12
+                 inner.cinv() && inner.quiet() ==> r.cinv(), // @C12
+               '''),
+        ]),
         Impl('impl<C: Channel> Channel for MaxRequests<C>', fx_type='SFx', trait_impl=True, qual='MaxRequests', canary_header='impl<C: Channel> MaxRequests<C>', parts=[
             MR_VOCAB,
             T(MR_CHAN, 'in_flight_requests', 'in_flight', ret='n', tags='C12'),
